@@ -46,7 +46,7 @@ size_t GB;           /* arbitrary byte index into a socket address */
  * measured); sub-structs are the units of the assigns clauses: G.cl (close path), G.ep (epoll interest), G.tx (send/sendto), G.rx (receive path). */
 struct iora_udp_ghost {
   struct { unsigned closeCb_calls; SessionId closeCb_sid; bool closeCb_erased; bool closeCb_locked; TransportError closeCb_why;
-           unsigned close_calls; int close_fd; unsigned delEpoll_calls; int delEpoll_fd; unsigned delEpoll_closes_before; unsigned closeCb_calls_w; /* callbacks for the witness id GSID */ bool erased_w, flag_w, locked_w; TransportError why_w; size_t closeCb_total; } cl;
+           unsigned close_calls; int close_fd; unsigned delEpoll_calls; int delEpoll_fd; unsigned delEpoll_closes_before; unsigned closeCb_calls_w; /* callbacks for the witness id GSID */ bool erased_w, flag_w, locked_w; TransportError why_w; size_t closeCb_total; bool gfd_closed; /* close() was called on the witness descriptor GFD */ } cl;
   struct { unsigned modEpoll_calls; int modEpoll_fd; uint32_t modEpoll_ev; } ep;
   struct { size_t front_lo; size_t calls, ok, again, err; bool is_sendto; int fd; const uint8_t *p; int n; socklen_t tolen; uint8_t to_gb; int flags; int ret; int err_no;
            size_t w_calls; const uint8_t *w_p; int w_n; socklen_t w_tolen; uint8_t w_to_gb; } tx;
@@ -174,6 +174,10 @@ static inline iora_peer_it iora_map1_peer_find(const iora_map1_peer *m, iora_str
   else { it.end = nondet_bool(); it.second = nondet_u64(); IORA_ASSUME(it.second != GSID); } return it; }
 static inline void iora_map1_peer_erase(iora_map1_peer *m, iora_strid k) { if (k == GPK) m->has = false; }
 static inline void iora_map1_peer_emplace(iora_map1_peer *m, iora_strid k, SessionId v) { if (k == GPK && !m->has) { m->has = true; m->val = v; } }
+/* operator[](k): a reference to the mapped value; a missing key is default-inserted (value 0).  `m[k] = v` is insert-OR-OVERWRITE. */
+SessionId G_peer_scratch;
+static inline SessionId *iora_map1_peer_index(iora_map1_peer *m, iora_strid k)
+{ if (k == GPK) { if (!m->has) { m->has = true; m->val = 0; } return &m->val; } return &G_peer_scratch; }
 /* try_emplace(k, v): like emplace, an existing entry is left untouched */
 static inline void iora_map1_peer_try_emplace(iora_map1_peer *m, iora_strid k, SessionId v) { iora_map1_peer_emplace(m, k, v); }
 
@@ -429,5 +433,5 @@ static inline bool UdpEngine_modEpoll(UdpEngine *self, int fd, uint32_t ev)
 #ifndef IORA_ON_SYS_CLOSE_HOOK
 #define IORA_ON_SYS_CLOSE_HOOK(fd) ((void)0)
 #endif
-static inline int iora_sys_close(int fd) { IORA_BUMP(G_close_calls); G_close_fd = fd; IORA_ON_SYS_CLOSE_HOOK(fd); return 0; }
+static inline int iora_sys_close(int fd) { IORA_BUMP(G_close_calls); G_close_fd = fd; if (fd == GFD) G.cl.gfd_closed = true; IORA_ON_SYS_CLOSE_HOOK(fd); return 0; }
 #endif
